@@ -423,7 +423,7 @@ func (rb *Buffer) WriteTo(w io.Writer) (int64, error) {
 			panic("RingBuffer.WriteTo: invalid Write count")
 		}
 		rb.r = (rb.r + m) % rb.size
-		if rb.r == rb.w {
+		if m > 0 && rb.r == rb.w {
 			rb.Reset()
 		}
 		if err != nil {
